@@ -25,6 +25,9 @@ Definition delayed_saves_and_restores : bool :=
 Definition disable_saves_and_restores : bool :=
   match disable_enter_body, disable_exit_body, ignore_keyboard_interrupt_body with
   | [a; b; c], [d; e], [f] =>
+      (* saved and restored under the SAME condition (main thread), whatever the saved handler is: SIG_DFL and SIG_IGN are
+         falsy / special values, a guard on the saved value would skip the restore for them *)
+      String.eqb a "if current_thread() == main_thread():" && String.eqb d "if current_thread() == main_thread():" &&
       String.eqb b "  self._handler = getsignal(SIGINT)" && String.eqb c "  ignore_keyboard_interrupt()" &&
       String.eqb e "  signal_(SIGINT, self._handler)" && String.eqb f "signal_(SIGINT, SIG_IGN)"
   | _, _, _ => false end.
